@@ -127,3 +127,21 @@ DOC_PLATFORMS = {
     "unix": ["linux", "macos", "freebsd", "openbsd", "netbsd", "sunos", "aix"],
     "posix": ["linux", "macos", "freebsd", "openbsd", "netbsd", "sunos", "aix"],
 }
+
+# Windows psutil_proc_memory_info(): PROCESS_MEMORY_COUNTERS_EX member that each
+# pmem field after (rss, vms) documents (docs/index.rst memory_info, Windows row)
+WIN_MEMINFO = [
+    ("num_page_faults", r"PageFaultCount"), ("peak_wset", r"PeakWorkingSetSize"),
+    ("wset", r"(?<!Peak)WorkingSetSize"), ("peak_paged_pool", r"QuotaPeakPagedPoolUsage"),
+    ("paged_pool", r"QuotaPagedPoolUsage"), ("peak_nonpaged_pool", r"QuotaPeakNonPagedPoolUsage"),
+    ("nonpaged_pool", r"QuotaNonPagedPoolUsage"), ("pagefile", r"(?<!Peak)PagefileUsage"),
+    ("peak_pagefile", r"PeakPagefileUsage"), ("private", r"PrivateUsage"),
+]
+
+# Windows: SYSTEM_PROCESS_INFORMATION-derived pinfo_map key -> documented field it
+# stands in for when the dedicated native call is denied
+WIN_PINFO_FIELD = {
+    "io_rcount": "read_count", "io_wcount": "write_count", "io_rbytes": "read_bytes",
+    "io_wbytes": "write_bytes", "io_count_others": "other_count",
+    "io_bytes_others": "other_bytes", "user_time": "user", "kernel_time": "system",
+}
